@@ -223,6 +223,24 @@ def _is_tuple_like(t):
     return False
 
 
+def _iterable(it):
+    """canonical iterable: iterating over list(x) / tuple(x) is iterating over x; zip / enumerate become structured terms"""
+    while is_t(it, "call") and it[1] in (G("list"), G("tuple")) and len(it[2]) == 1 and not it[3]:
+        it = it[2][0]
+    if is_t(it, "call") and it[1] == G("zip") and not it[3]:
+        return ("zip", tuple(_iterable(x) for x in it[2]))
+    if is_t(it, "call") and it[1] == G("enumerate") and len(it[2]) >= 1:
+        return ("enumerate", _iterable(it[2][0]))
+    return it
+
+
+def mk_fam(it, body):
+    """[body for ... in it]; an enumerate whose counter is not used is the plain iteration"""
+    if is_t(it, "enumerate") and not contains(body, ("enumidx", it[1])) and not any(is_t(x, "closure") for x in subterms(body)):
+        it = it[1]
+    return ("fam", it, body)
+
+
 def mk_bin(op, a, b):
     # tuple concatenation: (a,) + tuple(b) is (a, *b)
     if op == "+" and (is_t(a, "tuple") or is_t(b, "tuple")):
@@ -685,7 +703,7 @@ class _Ctx:
         return env
 
     def for_(self, st, env, conds):
-        it = self.expr(st.iter, env)
+        it = _iterable(self.expr(st.iter, env))
         if is_t(it, "call") and it[1] == G("zip"):
             it = ("zip", it[2])
         elif is_t(it, "call") and it[1] == G("enumerate") and len(it[2]) >= 1:
@@ -708,7 +726,7 @@ class _Ctx:
                     # a list filled by `append` in the loop is the comprehension over the same iterable
                     added = v[1][len(before[1]):]
                     if not before[1] and len(added) == 1 and not _has_star(v):
-                        out[k] = ("fam", it, added[0])
+                        out[k] = mk_fam(it, added[0])
                     else:
                         out[k] = ("bin", "+", before, ("sumover", it, ("list", added)))
                 elif is_t(v, "bin") and v[1] in ("+", "|") and v[2] == before:
@@ -951,7 +969,7 @@ class _Ctx:
     def comp_iter(self, gens, cenv):
         its = []
         for g in gens:
-            it = self.expr(g.iter, cenv)
+            it = _iterable(self.expr(g.iter, cenv))
             if is_t(it, "call") and it[1] == G("zip"):
                 it = ("zip", it[2])
             elif is_t(it, "call") and it[1] == G("enumerate") and len(it[2]) >= 1:
@@ -965,7 +983,7 @@ class _Ctx:
         cenv = dict(env)
         it = self.comp_iter(e.generators, cenv)
         body = self.expr(e.elt, cenv)
-        return ("fam", it, body)
+        return mk_fam(it, body)
 
     # -------------------------------------------------------------- calls
     def call(self, e: ast.Call, env):
@@ -997,6 +1015,9 @@ class _Ctx:
                 kwargs = {}
         if is_t(f, "attr") and f[2] in ev.call_aliases() and f[1] != P("self"):
             f = f[1]
+        # functools.partial(g, a, b)(c) is g(a, b, c)
+        if is_t(f, "partial"):
+            return self.call_value(f[1], list(f[2]) + list(args), {**dict(f[3]), **kwargs})
         # ---- closures
         clo = ev.closure_of(f)
         if clo is not None:
@@ -1134,6 +1155,8 @@ class _Ctx:
             return self.scan(args, kwargs)
         if short in ("list", "tuple") and len(args) == 1 and (is_t(args[0], "fam") or is_t(args[0], "mswitch")):
             return args[0]
+        if name in ("functools.partial", "partial") and args and "**" not in kwargs:
+            return ("partial", args[0], tuple(args[1:]), tuple(sorted(kwargs.items())))
         if short == "reversed" and len(args) == 1:
             return ("reversed", args[0])
         if short == "isinstance" and len(args) == 2:
